@@ -572,9 +572,9 @@ def oracle_unitary(r):
         ("unroll_circuit_op_greedy_frontier(deep)", lambda c: cirq.unroll_circuit_op_greedy_frontier(c, deep=True, tags_to_check=None)),
     ):
         out = fn(resolved)
-        # a zero-repetition, empty or qubit-less sub-circuit is a no-op / a pure phase; some primitives leave it in place, which changes nothing
+        # a zero-repetition or empty sub-circuit is a no-op; some primitives leave it in place, which changes nothing
         if any(isinstance(op.untagged, cirq.CircuitOperation) and op.untagged.repetitions != 0 and len(op.untagged.circuit) > 0
-               and len(op.qubits) > 0 for op in out.all_operations()):
+               for op in out.all_operations()):
             raise Violation(f"{name} left a CircuitOperation in the circuit")
         extra = set(out.all_qubits()) - set(qs)
         if extra:
